@@ -70,7 +70,8 @@ class Queue(object):
         :param till: A `Signal` WHEN TO GIVE UP WAITING FOR SPACE IN THE QUEUE (INSTEAD OF timeout)
         :return: self
         """
-        till = till or Till(seconds=coalesce(timeout, DEFAULT_WAIT_TIME))
+        if till is None:
+            till = Till(seconds=coalesce(timeout, DEFAULT_WAIT_TIME))
         with self.lock:
             if value is PLEASE_STOP:
                 # INSIDE THE lock SO THAT EXITING WILL RELEASE wait()
@@ -320,7 +321,8 @@ class PriorityQueue(Queue):
             logger.info("queue iterator is done")
 
     def add(self, value, timeout=None, priority=0, till=None):
-        till = till or Till(seconds=coalesce(timeout, DEFAULT_WAIT_TIME))
+        if till is None:
+            till = Till(seconds=coalesce(timeout, DEFAULT_WAIT_TIME))
         with self.lock:
             if value is PLEASE_STOP:
                 # INSIDE THE lock SO THAT EXITING WILL RELEASE wait()
@@ -548,14 +550,16 @@ class ThreadedQueue(Queue):
         pass
 
     def add(self, value, timeout=None, till=None):
-        till = till or Till(seconds=coalesce(timeout, DEFAULT_WAIT_TIME))
+        if till is None:
+            till = Till(seconds=coalesce(timeout, DEFAULT_WAIT_TIME))
         with self.lock:
             self._wait_for_queue_space(till)
             self.queue.append(value)
         return self
 
     def extend(self, values, till=None):
-        till = till or Till(seconds=DEFAULT_WAIT_TIME)
+        if till is None:
+            till = Till(seconds=DEFAULT_WAIT_TIME)
         with self.lock:
             # ONCE THE queue IS BELOW LIMIT, ALLOW ADDING MORE
             self._wait_for_queue_space(till)
